@@ -46,6 +46,7 @@ RULE = (
     'and a value long enough to trigger trimming.'
 )
 RULE += (' ' + 'Also generated: for build, a callable that mutates its list/dict argument in place, given a Buildable-free container (directly or nested in a list).')
+RULE += (' ' + 'Round 7: long values two levels inside container arguments; graphviz.render with max_str_length.')
 RULE += (' ' + 'Round 6: the node shared by two sub-fixtures holds a Buildable / list / dict itself.')
 RULE += (' ' + "Rounds 3-5: both code generators with the root's arguments as sub-fixtures (a tagged node shared by two of them); render_diff(trim=True) with OrderedDict leaves; build_diff against a copy with overlapping tag sets.")
 ASSUMPTIONS = [
@@ -107,6 +108,7 @@ APIS = {
     'as_dict_flattened': lambda c: printing.as_dict_flattened(c),
     'history_per_leaf_parameter': lambda c: printing.history_per_leaf_parameter(c),
     'graphviz.render': lambda c: fgraphviz.render(c),
+    'graphviz.render_max_str': lambda c: fgraphviz.render(c, max_str_length=20),
     'graphviz.render_diff': lambda c: fgraphviz.render_diff(old=c, new=_other(c)),
     'graphviz.render_diff_trim': lambda c: fgraphviz.render_diff(old=c, new=_other(c), trim=True),
     'graphviz.render_diff_trim_new': lambda c: fgraphviz.render_diff(old=_other(c), new=c, trim=True),
@@ -184,6 +186,21 @@ def strategy_(draw, tier):
     if bn:
       draw(st.sampled_from(bn))['kw']['y'] = {'leaf': LONG}
   api = draw(st.sampled_from(API_NAMES + ['build'] * 3 + ['new_codegen_sub_fixtures'] * 3))
+  if draw(st.sampled_from(range(4))) == 0 or (api in ('trim_long_fields', 'graphviz.render_max_str') and draw(st.booleans())):
+    # a long value two levels inside a container argument of a new root
+    nodes = recipe['nodes']
+    shape = draw(st.sampled_from(['list-list', 'dict-list', 'list-dict', 'tuple-list']))
+    inner = {'k': 'dict', 'keys': ['k'], 'items': [{'leaf': LONG}]} if shape == 'list-dict' else \
+        {'k': 'list', 'items': [{'leaf': 'short'}, {'leaf': LONG}]}
+    nodes.append(inner)
+    ii = len(nodes) - 1
+    outer = {'k': 'dict', 'keys': ['o'], 'items': [ii]} if shape == 'dict-list' else \
+        {'k': 'tuple' if shape == 'tuple-list' else 'list', 'items': [ii, {'leaf': 1}]}
+    nodes.append(outer)
+    nodes.append({'k': 'B', 'bt': 'Config', 'fn': {'kind': 'sym', 'name': 'things:h1'}, 'pos': [],
+                  'kw': {'a': {'leaf': 'uidW'}, 'b': recipe['root'], 'c': len(nodes) - 1,
+                         **({'d': ii} if draw(st.booleans()) else {})}, 'edits': []})
+    recipe['root'] = len(nodes) - 1
   if api == 'build' and draw(st.booleans()):
     # a callable that modifies its container argument in place, given a Buildable-free container
     nodes = recipe['nodes']
